@@ -293,6 +293,14 @@ def fault_scenarios(binary, tier):
                                                         ver(3, 3, False, "", 0)], [900000, 480000], [1800, 960], 2, ll=True, segDurMs=40)]),
     }
     scs = []
+    # renditions in a different container than the leading stream (no content fault needed: "identity" leaves the bytes alone)
+    for lname, (c0, c1) in (("mixA", ("fmp4", "ts")), ("mixB", ("ts", "fmp4"))):
+        for cms in ([0] if tier == "quick" else [0, 20, 60]):
+            s0 = stream(c0, [H264], vs, [900000], [1800], 2)
+            a = aac(90000 if c1 == "ts" else 48000, 48000)
+            s1 = stream(c1, [a], vs, [900000 if c1 == "ts" else 480000], [step_of(a, c1)], 2, name="eng", lang="en", default=True)
+            scs.append(scenario("multi", [s0, s1], "mut-%s-identity-c%d" % (lname, cms), mut="identity", mutS=0, mutKind="seg", mutNth=0,
+                                closeAtMs=cms, maxMs=1500))
     for lname, (entry, streams) in layouts.items():
         targets = []
         if entry == "multi":
